@@ -1,12 +1,15 @@
-(* C01 -- the documented meaning of one YAML Path segment on a document node
+(* C01 -- the documented meaning of a YAML Path on a document
    (README "Supported YAML Path Segments"; DESIGN Appendix C), written
-   independently of the evaluator: plain list functions over Doc.node.
-   The path-level composition (sem (s :: p) = flat_map (sem p) . sel s, the
-   look-ahead of * and **, descendant searches) is the reference the harness
-   evaluates (harness/c01.py ref_sel / ref_sem); the Gallina part below is what
-   the segment-level theorems of Properties/C01.v are stated against. *)
+   independently of the evaluator: plain list functions over Doc.node -- filters
+   and flat_maps over children, no generators, no fuel, no coordinates.
+
+     sem (s :: p) n = flat_map (sem p) (sel s n)          one [sel_*] per segment kind
+     sem []       n = [n]
+
+   harness/c01.py (ref_sel / ref_sem) is the same definition in Python; the
+   extracted [sem_doc] is evaluated next to it on every run. *)
 From Coq Require Import List Ascii String ZArith Bool Arith.
-From YP Require Import Outcome PyStr PyVal Doc.
+From YP Require Import Outcome PyStr PyVal Doc PathParser Searches Eval.
 Import ListNotations.
 
 (* zero-based element, negative from the end; nothing when out of range *)
@@ -58,7 +61,256 @@ Definition sel_anchor (x : string) (n : node) : list node :=
   | NLeaf _ _ => []
   end.
 
-(* `[a:b]` on a hash: the values whose key text lies between the terms *)
-Definition key_text (k : node) : string := match k with NLeaf _ v => py_str v | _ => ""%string end.
+(* `[a:b]` on a hash: the values whose key text lies key_between the terms *)
+(* keys and set members are scalars *)
+Definition key_txt (k : node) : string := py_str (match k with NLeaf _ v => v | _ => PNone end).
 Definition sel_hash_slice (lo hi : string) (kvs : list (node * node)) : list node :=
-  map snd (filter (fun kv => str_leb lo (key_text (fst kv)) && str_leb (key_text (fst kv)) hi) kvs).
+  map snd (filter (fun kv => str_leb lo (key_txt (fst kv)) && str_leb (key_txt (fst kv)) hi) kvs).
+
+(* ------------------------------------------------------------------------ *)
+(* what a path selects: document nodes (the objects themselves: a Doc.node
+   carries its identity), virtual lists (array slices: "one virtual list
+   result", no identity of its own), or -- where the documentation says
+   nothing, or says "error" -- the marker SOut *)
+Inductive selres :=
+  | SNode (n : node)
+  | SVirt (els : list node)
+  | SOut.
+
+Definition is_spec (s : selres) : bool := match s with SOut => false | _ => true end.
+Definition specified (l : list selres) : bool := forallb is_spec l.
+
+(* `**` as last segment: every leaf below, document order (set members are leaves) *)
+Fixpoint leaf_nodes (n : node) : list node :=
+  match n with
+  | NLeaf _ _ => [n]
+  | NMap _ kvs => flat_map (fun kv => leaf_nodes (snd kv)) kvs
+  | NSeq _ els => flat_map leaf_nodes els
+  | NSet _ els => els
+  end.
+
+(* `**` before a filter: the node and everything below it, document order *)
+Fixpoint desc_or_self (n : node) : list node :=
+  n :: match n with
+       | NMap _ kvs => flat_map (fun kv => desc_or_self (snd kv)) kvs
+       | NSeq _ els => flat_map desc_or_self els
+       | _ => []
+       end.
+
+(* `key` / `#`: hash child, set member, array element; Array-of-Hashes
+   pass-through [tl]: every element's attribute, nested lists included *)
+Fixpoint sel_key (tl : bool) (k : string) (n : node) : list node :=
+  match n with
+  | NMap _ kvs => sel_key_map k kvs
+  | NSet _ els => sel_key_set k els
+  | NSeq _ els =>
+      match py_int k with
+      | Some i => sel_element els i
+      | None => if tl then flat_map (sel_key tl k) els else []
+      end
+  | NLeaf _ _ => []
+  end.
+
+(* `[a:b]` on an array: Python's els[a:b] *)
+Definition slice_clamp (len i : Z) : nat :=
+  Z.to_nat (if (i <? 0)%Z then Z.max 0 (i + len) else Z.min i len).
+Definition py_slice (els : list node) (a b : Z) : list node :=
+  let len := Z.of_nat (List.length els) in
+  firstn (slice_clamp len b - slice_clamp len a) (skipn (slice_clamp len a) els).
+
+Definition key_between (lo hi : string) (k : node) : bool :=
+  str_leb lo (key_txt k) && str_leb (key_txt k) hi.
+
+(* `[a:b]`: the text before and after the first colon *)
+Definition sel_slice (s : string) (n : node) : list selres :=
+  let lo := take (index_char ":"%char s) s in
+  let hi := drop (S (index_char ":"%char s)) s in
+  match n with
+  | NMap _ kvs => map SNode (sel_hash_slice lo hi kvs)
+  | NSet _ els => map SNode (filter (key_between lo hi) els)
+  | NSeq _ els =>
+      match py_int lo, py_int hi with
+      | Some a, Some b =>
+          (* "when start# and stop# are identical, it is the same as array[start#]" *)
+          [SVirt (if (a =? b)%Z then match sel_element els a with [] => py_slice els a b | l => l end
+                  else py_slice els a b)]
+      | _, _ => [SOut]                      (* an array has no alphanumeric slice *)
+      end
+  | NLeaf _ _ => []
+  end.
+
+(* `[#]` *)
+Definition sel_index (i : Z) (n : node) : list selres :=
+  match n with
+  | NSeq _ els => map SNode (sel_element els i)
+  | NSet _ _ => [SOut]                      (* a set has no positions *)
+  | _ => []
+  end.
+
+Definition is_null_node (n : node) : bool := match n with NLeaf _ PNone => true | _ => false end.
+Definition attr_of (attr : string) (n : node) : option node :=
+  match n with NMap _ kvs => assoc_key (PStr attr) kvs | _ => None end.
+Definition is_snode (s : selres) : bool := match s with SNode _ => true | _ => false end.
+
+Section Sem.
+(* the oracles of the typed comparison (C12's subject) *)
+Variable lit : string -> outcome litres.
+Variable re_search : string -> string -> outcome reres.
+Variable nstr : node -> string.
+(* strict = true: the situations of the listed findings are marked SOut
+   instead of being given their documented meaning (F12a: a search attribute
+   path reaching several nodes below one candidate; F29: `*` before another
+   segment over a set).  [sem] is the documented meaning (strict = false);
+   [sem_strict] is the computable guard of the _partial theorem. *)
+Variable strict : bool.
+
+(* what the comparison sees of a node *)
+Definition hay_of_node (n : node) : hay :=
+  match n with
+  | NLeaf _ x => if is_sbool n then HSBool (match x with PInt z => negb (Z.eqb z 0) | _ => false end) else HVal x
+  | _ => HVal (POther (nstr n))
+  end.
+
+(* [x] when `h OP term` holds (inverted: does not hold) *)
+Definition keep_if (inv : bool) (m : smethod) (term : string) (h : node) (x : node) : list selres :=
+  match search_matches_h lit re_search m term (hay_of_node h) with
+  | Ok b => if xorb b inv then [SNode x] else []
+  | _ => [SOut]                             (* the comparison itself fails: invalid regular expression *)
+  end.
+Definition verdict_of (inv b : bool) (x : node) : list selres := if xorb b inv then [SNode x] else [].
+
+(* `[a.b.c OP term]`: x has a descendant at that path satisfying OP *)
+Definition some_hit (inv : bool) (m : smethod) (term : string) (hits : list selres) (x : node) : list selres :=
+  match hits with
+  | [] => verdict_of inv false x
+  | [SNode h] => keep_if inv m term h x
+  | _ =>
+      if strict || negb (forallb is_snode hits) then [SOut]
+      else
+        let tests := map (fun s => match s with
+                                   | SNode h => search_matches_h lit re_search m term (hay_of_node h)
+                                   | _ => Raise OracleMiss
+                                   end) hits in
+        if forallb (fun t => match t with Ok _ => true | _ => false end) tests
+        then verdict_of inv (existsb (fun t => match t with Ok true => true | _ => false end) tests) x
+        else [SOut]
+  end.
+
+(* `[attr OP term]`, `[. OP term]`, `[a.b OP term]` *)
+Definition sel_search (attr_sem : node -> list selres) (tl inv : bool) (m : smethod) (attr term : string)
+           (n : node) : list selres :=
+  let by_attr (e : node) (x : node) : list selres :=
+    match attr_of attr e with
+    | Some v => keep_if inv m term v x
+    | None => some_hit inv m term (attr_sem e) x
+    end in
+  match n with
+  | NLeaf _ _ => keep_if inv m term n n
+  | NSet _ els => flat_map (fun e => keep_if inv m term e e) els
+  | NMap _ kvs =>
+      if String.eqb attr "." then flat_map (fun kv => keep_if inv m term (fst kv) (snd kv)) kvs   (* key names, yielding values *)
+      else match assoc_key (PStr attr) kvs with
+           | Some v => keep_if inv m term v v
+           | None => some_hit inv m term (attr_sem n) n
+           end
+  | NSeq _ els =>
+      if negb tl then []
+      else if String.eqb attr "." then
+        (* elements by value; in an Array-of-Hashes a hash HAVING the key named
+           by the term also matches (taken from the code: README is silent) *)
+        let aoh := forallb (fun e => is_null_node e || is_map e) els in
+        flat_map (fun e =>
+          if aoh && match attr_of term e with Some _ => true | None => false end
+          then verdict_of inv true e else keep_if inv m term e e) els
+      else flat_map (fun e => by_attr e e) els
+  end.
+
+(* one segment [es] applied to n; [attr_sem] = meaning of its search attribute
+   path, [last] = no segment follows, [k] = meaning of the rest of the path *)
+Definition seg_sem (es : seg) (attr_sem : node -> list selres) (last : bool)
+           (k : bool -> node -> list selres) (tl : bool) (n : node) : list selres :=
+  let cont (s : selres) : list selres :=
+    match s with
+    | SNode c => k true c
+    | SVirt _ => if last then [s] else [SOut]      (* segments applied to a slice result: not documented *)
+    | SOut => [SOut]
+    end in
+  match es with
+  | (Some TKey, AStr key) => flat_map cont (map SNode (sel_key tl key n))
+  | (Some TIndex, AInt i) => flat_map cont (sel_index i n)
+  | (Some TIndex, AStr s) => flat_map cont (sel_slice s n)
+  | (Some TAnchor, AStr x) => flat_map cont (map SNode (sel_anchor x n))
+  | (Some TSearch, ASearch inv m attr term) => flat_map cont (sel_search attr_sem tl inv m attr term n)
+  | (Some TMatchAll, _) =>
+      (* every immediate child; with a following segment, those on which it selects *)
+      if strict && negb last && match n with NSet _ (_ :: _) => true | _ => false end then [SOut]
+      else flat_map cont (map SNode (sel_children n))
+  | (Some TTraverse, _) =>
+      if last then map SNode (leaf_nodes n)
+      else flat_map (k false) (desc_or_self n)       (* the filter applies without list pass-through *)
+  | _ => [SOut]
+  end.
+
+Fixpoint sem_segs (sem_path : ppath -> bool -> node -> list selres) (l : list pseg) : bool -> node -> list selres :=
+  match l with
+  | [] => fun _ n => [SNode n]
+  | PSeg es _ sub _ :: rest =>
+      seg_sem es (sem_path sub true) (match rest with [] => true | _ => false end) (sem_segs sem_path rest)
+  end.
+
+Fixpoint sem_path (p : ppath) : bool -> node -> list selres :=
+  match p with
+  | PFail _ => fun _ _ => [SOut]
+  | PPath segs =>
+      (fix go (l : list pseg) : bool -> node -> list selres :=
+         match l with
+         | [] => fun _ n => [SNode n]
+         | PSeg es _ sub _ :: rest =>
+             seg_sem es (sem_path sub true) (match rest with [] => true | _ => false end) (go rest)
+         end) segs
+  end.
+
+(* a query on a document; "Refusing to get nodes from a null document" *)
+Definition sem_doc (p : ppath) (d : node) : list selres :=
+  match d with
+  | NLeaf _ PNone => []
+  | _ => sem_path p true d
+  end.
+
+End Sem.
+
+(* the C01 fragment of prepared paths: key, index, slice, anchor, search,
+   `*`, `**` (not twice in a row: the parser's own refusal); no keyword
+   segments, no collectors *)
+Definition c01_seg (es us : seg) : bool :=
+  (match es with
+   | (Some TKey, AStr _) | (Some TAnchor, AStr _) | (Some TIndex, AInt _)
+   | (Some TMatchAll, _) | (Some TTraverse, _) | (Some TSearch, ASearch _ _ _ _) => true
+   | (Some TIndex, AStr s) => str_in ":"%char s
+   | _ => false
+   end) && negb (is_stype TCollector (fst us)).
+
+Definition is_trav (ps : pseg) : bool := is_stype TTraverse (fst (seg_es ps)).
+Fixpoint no_double_trav (l : list pseg) : bool :=
+  match l with
+  | a :: ((b :: _) as r) => negb (is_trav a && is_trav b) && no_double_trav r
+  | _ => true
+  end.
+
+Fixpoint c01_segs (frag : ppath -> bool) (l : list pseg) : bool :=
+  match l with
+  | [] => true
+  | PSeg es us s s2 :: r => c01_seg es us && frag s && frag s2 && c01_segs frag r
+  end.
+
+Fixpoint c01_frag (p : ppath) : bool :=
+  match p with
+  | PFail _ => true           (* its meaning is SOut: nothing is claimed *)
+  | PPath segs =>
+      no_double_trav segs &&
+      (fix go (l : list pseg) : bool :=
+         match l with
+         | [] => true
+         | PSeg es us s s2 :: r => c01_seg es us && c01_frag s && c01_frag s2 && go r
+         end) segs
+  end.
